@@ -80,7 +80,22 @@ def run_case(case, rng):
     if not rep.endswith("explicit"):
         G.restrict_to_closure(sp, rng)
     sp.init = [(s, p) for s, p in sp.init if p > 0]
-    mdp = Bd.build(sp, rep, shuffle_rng=rng)
+    sp_model = sp
+    if sp.flag and rng.random() < 0.35:
+        # an explicitly absorbing state never collects reward: its own reward entries are a don't-care, and a caller may put a
+        # placeholder there ("nothing is defined after termination"): -inf / +inf. The reference keeps the finite spec.
+        import copy as _copy
+        sp_model = _copy.deepcopy(sp)
+        ph = rng.choice([float("-inf"), float("inf")])
+        for (s_, a_, t_) in list(sp_model.R):
+            if s_ in sp_model.flag:
+                sp_model.R[(s_, a_, t_)] = ph
+        for s_ in sp_model.flag:
+            for a_ in sp_model.acts.get(s_, ()):
+                for t_, _p in sp_model.P.get((s_, a_), []):
+                    sp_model.R[(s_, a_, t_)] = ph
+        case.count("models_with_infinite_placeholder_rewards_at_absorbing_states")
+    mdp = Bd.build(sp_model, rep, shuffle_rng=rng)
     S, A = list(mdp.state_list), list(mdp.action_list)
     if set(S) != set(sp.states):
         raise Inconclusive("state_list differs from closure (C06's subject)")
